@@ -101,6 +101,9 @@ class TrackingBackend:
         job_id = self.ops.submit_target(target, dependency_ids)
         self._tracked_jobs[target.name] = job_id
         self._job_states[job_id] = BackendStatus.SUBMITTED
+        # Persist right away: if gwf is killed before close(), the scheduler
+        # still has the job and the next invocation must know about it.
+        self._dump_tracked_jobs()
 
     def cancel(self, target):
         try:
@@ -108,10 +111,13 @@ class TrackingBackend:
         except KeyError as exc:
             raise TargetError(target.name) from exc
 
-    def close(self):
-        self.ops.close()
+    def _dump_tracked_jobs(self):
         with open(self._get_state_path(), "w") as state_file:
             json.dump(self._tracked_jobs, state_file)
+
+    def close(self):
+        self.ops.close()
+        self._dump_tracked_jobs()
 
     @property
     def target_defaults(self):
